@@ -417,6 +417,10 @@ class GenCalls(Gen):
             if cands:
                 n = r.choice(cands)
                 at, lb, ub = self.arrays[n]
+                y = r.random()
+                if y < 0.3:
+                    # a pure built-in call in the subscript, itself with a by-reference argument (the swap idiom A(LBOUND(A)))
+                    return ("idx", n, [("call", r.choice(["LBOUND", "UBOUND"]), [("var", n)])])
                 return ("idx", n, [("lit", "%", r.randrange(lb, ub + 1))])
         return self.var(t)
 
